@@ -56,9 +56,9 @@ var owners = map[string][]string{
 	"hang":        {"C18", "C09"},
 	"hang.lock":   {"C18", "C09", "C16"},
 	"junk":        {"C19", "C05"},
-	"events":      {"C15"},
+	"events":      {"C15", "C06"},
 	"afterclose":  {"C15"},
-	"events.late": {"C15"},
+	"events.late": {"C15", "C06"},
 	"resources":   {"C15"},
 	"challenge":   {"C03"},
 }
